@@ -7,7 +7,7 @@ from . import geom
 
 SPEC = dict(
     technique='Lean 4 proof (q2r homomorphism, double cover, embeddings, class delegation; regenerated model) + float monitor of the converse maps',
-    lean_modules=['SmVerif.Props.C04', 'SmVerif.Props.Delegation'],
+    lean_modules=['SmVerif.Props.C04', 'SmVerif.Props.Delegation', 'SmVerif.Props.UQOps'],
     groups=['Quaternions', 'Quats', 'Poses'],
     expected_untranslatable=('UQ_interp', 'UQ_interp_shortest'),
     partial=['r2q branches are proved per branch under the branch condition; twist and dual-quaternion routes are explored'],
